@@ -11,13 +11,22 @@ def run(job):
     res = {}
     try:
         with contextlib.redirect_stdout(buf), contextlib.redirect_stderr(buf):
-            r = Compiler.Compiler().Compile(job["src"], {"wasm": True, "optimize": bool(job.get("optimize"))})
+            comp = Compiler.Compiler()
+            for earlier in job.get("before", []):        # the same Compiler object has compiled other sources before (their outcome does not matter)
+                try:
+                    comp.Compile(earlier, {"wasm": True, "optimize": bool(job.get("optimize"))})
+                except BaseException:
+                    pass
+            r = comp.Compile(job["src"], {"wasm": True, "optimize": bool(job.get("optimize"))})
         if r is None:
             return {"accept": False, "how": {"exc": None, "stage": "returned-none"}}
         b = io.BytesIO(); r.WasmModule.WriteTo(b)
         res = {"accept": True, "hex": b.getvalue().hex(), "ir": irdump.module(r.IRModule)}
     except BaseException as e:
         res = {"accept": False, "how": classify_exc(e)}
+        if job.get("before"):       # a used Compiler object may refuse more than a fresh one (its validators keep their verdict): not a backend refusal
+            res["front_end_ok"] = False
+            return res
         # is the program fine without the wasm option?  (then the backend refused it; otherwise the front end did)
         try:
             with contextlib.redirect_stdout(buf), contextlib.redirect_stderr(buf):
